@@ -131,7 +131,25 @@ fn build_plan(seed: u64) -> Plan {
             let (w, h) = l.dims();
             if w % 4 == 0 && h % 4 == 0 || (c.subsampling_x == 0 && c.subsampling_y == 0) {
                 if let Ok(y) = apply(Edge::LinToYuv { u8_out: c.bit_depth == 8 }, &l, &Params { cfg: c }) {
+                    // a twin with the same planes, relabelled with the other range: caches keyed on part of
+                    // the config (depth without range, ...) confuse the two
+                    let twin = match &y {
+                        Img::Yuv8(v) => {
+                            let mut c2 = v.config();
+                            c2.full_range = !c2.full_range;
+                            Yuv::new(super::hist::frame_of(v), c2).ok().map(Img::Yuv8)
+                        }
+                        Img::Yuv16(v) => {
+                            let mut c2 = v.config();
+                            c2.full_range = !c2.full_range;
+                            Yuv::new(super::hist::frame_of(v), c2).ok().map(Img::Yuv16)
+                        }
+                        _ => None,
+                    };
                     imgs.push(y);
+                    if let Some(t) = twin {
+                        imgs.push(t);
+                    }
                 }
             }
         }
